@@ -65,18 +65,29 @@ def build_harness(timeout=900):
     if not os.path.exists(slock):
         import shutil
         shutil.copy(os.path.join(REPO, "Cargo.lock"), slock)
-    q = subprocess.run(["cargo", "build", "--offline", "--quiet"], cwd=SIM_DIR, env=cargo_env(),
+    # one binary per simulated driver: what one textual build cannot follow leaves the other drivers available
+    for prof in ("debug", "nodebug"):
+        for d in SIM_DRIVERS:
+            try:
+                os.remove(os.path.join(SIM_DIR, "target", prof, "v" + d))
+            except OSError:
+                pass
+    q = subprocess.run(["cargo", "build", "--offline", "--quiet", "--bins", "--keep-going"], cwd=SIM_DIR, env=cargo_env(),
                        stdout=subprocess.PIPE, stderr=subprocess.STDOUT, text=True, timeout=timeout)
-    SIM_BUILD_ERROR = None if q.returncode == 0 else q.stdout[-3000:]
+    SIM_BUILD_ERROR = {d: q.stdout[-3000:] for d in SIM_DRIVERS if not os.path.exists(sim_bin(d))}
     # ... and once more as a release build sees the sources (debug assertions off, wrapping arithmetic)
     global SIM_ND_OK
-    q2 = subprocess.run(["cargo", "build", "--offline", "--quiet", "--profile", "nodebug"], cwd=SIM_DIR, env=cargo_env(),
-                        stdout=subprocess.PIPE, stderr=subprocess.STDOUT, text=True, timeout=timeout)
-    SIM_ND_OK = q.returncode == 0 and q2.returncode == 0
+    subprocess.run(["cargo", "build", "--offline", "--quiet", "--bins", "--keep-going", "--profile", "nodebug"], cwd=SIM_DIR, env=cargo_env(),
+                   stdout=subprocess.PIPE, stderr=subprocess.STDOUT, text=True, timeout=timeout)
+    SIM_ND_OK = os.path.exists(sim_bin("sim")) and os.path.exists(sim_bin("sim", True))
     return time.time() - t0
 
 
 SIM_ND_OK = False
+
+
+def sim_bin(driver, nodebug=False):
+    return os.path.join(SIM_DIR, "target", "nodebug" if nodebug else "debug", "v" + driver)
 
 
 def run_harness(driver, scenarios, name, timeout=1200, env_extra=None, args=None, nodebug=False):
@@ -93,11 +104,9 @@ def run_harness(driver, scenarios, name, timeout=1200, env_extra=None, args=None
     env["VERIF_SEED"] = str(seed())
     if env_extra:
         env.update(env_extra)
-    if driver in SIM_DRIVERS and SIM_BUILD_ERROR:
-        raise SimUnavailable("the simulated build of the repository's sources failed:\n" + SIM_BUILD_ERROR)
-    binary = SIM_BIN if driver in SIM_DRIVERS else HARNESS_BIN
-    if nodebug and driver in SIM_DRIVERS:
-        binary = SIM_BIN.replace("/debug/", "/nodebug/")
+    if driver in SIM_DRIVERS and SIM_BUILD_ERROR and SIM_BUILD_ERROR.get(driver):
+        raise SimUnavailable("the simulated build (%s) of the repository's sources failed:\n" % driver + SIM_BUILD_ERROR[driver])
+    binary = sim_bin(driver, nodebug) if driver in SIM_DRIVERS else HARNESS_BIN
     try:
         p = subprocess.run([binary, driver, script, out] + (args or []), env=env, stdout=subprocess.PIPE,
                            stderr=subprocess.STDOUT, text=True, timeout=timeout, errors="replace")
